@@ -74,7 +74,7 @@ def _get_data_path():
         elif "XDG_CACHE_HOME" in environ:
             _data_path = environ["XDG_CACHE_HOME"]
         else:
-            home = os.path.expandvars("~")
+            home = os.path.expanduser("~")
             _data_path = os.path.join(home, ".cache", "typhon", "topography")
         if not os.path.exists(_data_path):
             os.makedirs(_data_path)
